@@ -520,8 +520,20 @@ def run(case):
                 cube.extra_coords.add(build_member(m, k).names, k, build_member(m, k))
             factor = [rng.choice([1, 2, 0.5, 1.5]) for _ in shape]
             offset = [rng.choice([0, 0.5, 1]) for _ in shape]
+            # the scalar spellings: one number standing for every axis (factor, offset, or both)
+            f_arg, o_arg = factor, offset
+            scal = rng.random()
+            if scal < 0.4:
+                o = rng.choice([x for x in (0.5, 1, 1.5, 0) if x <= min(shape) - 1])    # (the first sample lies on the tables)
+                offset = [o] * len(shape); o_arg = o
+                factor = [rng.choice([2, 3, 1]) for _ in shape] if scal < 0.2 else factor
+                f_arg = factor
+                if scal < 0.1:
+                    f = rng.choice([2, 3])
+                    factor = [f] * len(shape); f_arg = f
+                tags.append("resample-scalar-spelling")
             try:
-                rec = cube.extra_coords.resample(factor, offset, ndcube=cube)
+                rec = cube.extra_coords.resample(f_arg, o_arg, ndcube=cube)
                 rw = rec.wcs
                 rmap = [int(x) for x in rec.mapping]
                 sub = {"members": one_d}
